@@ -2,7 +2,7 @@
    Print Assumptions. *)
 From Coq Require Import ZArith QArith List Bool.
 From Centro Require Import Base.VecC13 Model.Circle Model.CircleVec Model.Feret Model.HullFill Spec.MecSpec Spec.ChrystalHyp Spec.FeretSpec Spec.FeretLower Spec.FillSpec
-  Proofs.MecProofs Proofs.CircleProofs Proofs.ChrystalFull Proofs.CircleVecProofs Proofs.CircleVecStep Proofs.FeretProofs Proofs.FeretLowerProofs Proofs.SweepProofs Proofs.FillProofs Proofs.FillEdgeProofs Proofs.FillModelProofs.
+  Proofs.MecProofs Proofs.CircleProofs Proofs.ChrystalFull Proofs.ChrystalHull Spec.HullSpec Proofs.CircleVecProofs Proofs.CircleVecStep Proofs.FeretProofs Proofs.FeretLowerProofs Proofs.SweepProofs Proofs.FillProofs Proofs.FillEdgeProofs Proofs.FillModelProofs.
 
 (* Full.  Soundness of the certificate checker that is run on the exact circle reconstructed from
    the implementation's output: the circle contains every pixel centre of S and no circle
@@ -49,6 +49,26 @@ Theorem C14_chrystal_reaches_certificate : forall h,
     MEC h (inject_Z ny / inject_Z d) (inject_Z nx / inject_Z d) (inject_Z rn / inject_Z (d * d)).
 Proof. exact chrystal_reaches_certificate. Qed.
 Print Assumptions C14_chrystal_reaches_certificate.
+
+(* Full (C14 x C02).  Every non-empty vertex list V that meets C02's hull specification for a pixel
+   set S (vertices are pixels, no repeats, every cyclically consecutive triple turns strictly in
+   one sense, every pixel on the inner side of every edge) satisfies chrystal_hyp_ok: no three
+   vertices are collinear (a middle one would be a proper convex combination of two pixels,
+   contradicting C02_vertex_extreme) and the first edge supports the whole set. *)
+Theorem C14_hull_satisfies_chrystal_hyp : forall S V,
+  HullSpec S V -> V <> nil -> chrystal_hyp_ok V = true.
+Proof. exact hull_satisfies_chrystal_hyp. Qed.
+Print Assumptions C14_hull_satisfies_chrystal_hyp.
+
+(* Full.  Hence Chrystal's iteration reaches the minimum enclosing circle of the hull vertices for
+   every hull that convex_hull can hand to minimum_enclosing_circle under C02's specification. *)
+Theorem C14_chrystal_on_every_hull : forall S V,
+  HullSpec S V -> V <> nil ->
+  exists ny nx d rn,
+    chrystal V = CCircle ny nx d rn /\
+    MEC V (inject_Z ny / inject_Z d) (inject_Z nx / inject_Z d) (inject_Z rn / inject_Z (d * d)).
+Proof. exact (fun S V H N => chrystal_reaches_certificate V (hull_satisfies_chrystal_hyp S V H N)). Qed.
+Print Assumptions C14_chrystal_on_every_hull.
 
 (* ---- the vectorised bookkeeping of minimum_enclosing_circle (Model/CircleVec.v: global hull rows,
    point_index = offsets, anti_indexes_per_point = anti_index gather, within_label_indexes, global
